@@ -228,6 +228,7 @@ func checkC01(c *Ctx, r *Report) {
 	c.checkLoggerGates(r, ro)
 	c.checkParseLevelRange(r)
 	c.checkChain(r, ro)
+	c.checkChainSemantics(r, ro)
 	c.checkSplit(r, ro)
 }
 
